@@ -209,6 +209,10 @@ type Unknown struct {
 	// Nilness: nilUnknown (assumed usable), nilNon, nilMaybe (dereference is flagged)
 	Nilness int
 	Why     string
+	// error provenance: the sentinel error variables this error is or wraps; ErrsExact when
+	// that set is complete (so errors.Is can be decided)
+	Errs      []string
+	ErrsExact bool
 }
 
 func (u *Unknown) TKey() string { return fmt.Sprintf("u%d", u.ID) }
